@@ -23,7 +23,7 @@ func run(cfg lib.Cfg) error {
 	out.Rule = "non-trivial = the task recorded a position at least once and at least one step ended done, nothing-new or ahead after that"
 	judge := func(sc *ts.Scenario, kind string) {
 		ts.Judge(out, sc, kind, func(r *ts.Run) []string {
-			return append(r.RangeOracle(), r.InvOracle()...)
+			return append(append(r.RangeOracle(), r.InvOracle()...), r.DepOracle()...)
 		}, func(r *ts.Run) bool {
 			c := r.CountOutcomes()
 			return c["OConverged"] >= 1 && c["ODone"]+c["ONothingNew"]+c["OAhead"] >= 1
@@ -119,6 +119,48 @@ func run(cfg lib.Cfg) error {
 			}
 		}
 	}
+	// the same range questions for an integration WITH dependencies: its target is the
+	// smaller of the source head and the dependency position, and still never beyond stop.
+	// Grid: stop x batch x where the referenced integration stands (below stop, at stop,
+	// between stop and head, at the head).
+	depTotal := 0
+	for _, stop := range []uint64{5, 8} {
+		for _, batch := range []int{2, 3, 7} {
+			for _, ref := range []string{"below-stop", "at-stop", "beyond-stop", "at-head"} {
+				depTotal++
+				if !cfg.Thorough() && ref != "beyond-stop" && (depTotal+int(cfg.Seed))%2 != 0 {
+					continue
+				}
+				var rpos int
+				switch ref {
+				case "below-stop":
+					rpos = int(stop) - 2
+				case "at-stop":
+					rpos = int(stop)
+				case "beyond-stop":
+					rpos = int(stop) + 2
+				case "at-head":
+					rpos = 12
+				}
+				sc := &ts.Scenario{Name: fmt.Sprintf("dep-stop%d-batch%d-reference-%s", stop, batch, ref), Seed: uint64(200 + depTotal), Head: 12,
+					Gen:  ts.GenOpts{MaxTxs: 2, MaxLogs: 3, Created: true, Decoys: true, EmptyProb: 10},
+					Srcs: []ts.SrcSpec{{Name: "main", ChainID: 1, Batch: batch, Conc: 1 + depTotal%2, URL: "http://main.invalid"}},
+					IGs: []ts.IGSpec{
+						{Name: "a-dep", Shape: "dep", Table: "d1", Ref: "r-one", RefLo: 1, Hdr: depTotal%3 == 0, Sources: []ts.SrcRef{{Name: "main", Start: 1, Stop: stop}}},
+						{Name: "r-one", Shape: "created", Table: "r1", Sources: []ts.SrcRef{{Name: "main", Start: 1, Stop: uint64(rpos)}}},
+					}}
+				// the referenced integration runs to its own stop = the wanted position
+				sc.Acts = append(sc.Acts, ts.Steps(2, rpos/batch+2)...)
+				sc.Acts = append(sc.Acts, ts.Steps(1, int(stop)/batch+3)...)
+				sc.Acts = append(sc.Acts, ts.Act{Do: "restart"})
+				sc.Acts = append(sc.Acts, ts.Steps(1, 3)...)
+				sc.Acts = append(sc.Acts, ts.Act{Do: "grow", K: 3})
+				sc.Acts = append(sc.Acts, ts.Steps(1, 3)...)
+				judge(sc, "dep-grid-reference-"+ref)
+			}
+		}
+	}
+	out.Notes["dep-grid"] = fmt.Sprintf("%d (stop, batch, reference position) combinations with a dependent integration, in the quick tier: every reference-beyond-stop cell and half of the others per seed", depTotal)
 	out.Notes["grid"] = fmt.Sprintf("%d admissible (start, stop, batch, prior) combinations, %d run in this tier", total, kept)
 	out.Notes["exhaustive"] = cfg.Thorough()
 	return out.Flush()
